@@ -299,14 +299,59 @@ def rustdoc_of(repo, it):
         st = lines[j].strip()
         if st.startswith('///'):
             doc.append(st[3:].strip())
-        elif st.startswith('#[') or st.startswith('#!['):
-            pass
+        elif st.startswith('#[') or st.startswith('#![') or (st.startswith('//') and not st.startswith('///')):
+            pass          # attributes and plain comments may sit between the rustdoc and the fn
         else:
             break
         j -= 1
     k = i
-    while k < len(lines) and (lines[k].strip().startswith('#[') or lines[k].strip().startswith('///')):
+    while k < len(lines) and (lines[k].strip().startswith('#[') or lines[k].strip().startswith('//')):
         if lines[k].strip().startswith('///'):
             doc.append(lines[k].strip()[3:].strip())
         k += 1
     return ' '.join(reversed(doc))
+
+
+def fn_params(repo, it):
+    """parameter names of the fn at the item's source position, in order ('self' first when present); [] when not parseable"""
+    import os
+    rustdoc_of(repo, it)
+    lines = _DOC_SRC.get(os.path.join(repo, it['file']))
+    if not lines:
+        return []
+    i = it['line'] - 1
+    sig = ''
+    for j in range(max(i, 0), min(i + 16, len(lines))):
+        st = lines[j].strip()
+        if st.startswith('#[') or st.startswith('//'):
+            continue
+        sig += ' ' + lines[j]
+        if '{' in lines[j] or ';' in lines[j]:
+            break
+    m = re.search(r'fn\s+\w+\s*(?:<[^>]*>)?\s*\(([^)]*)\)', sig)
+    if not m:
+        return []
+    out = []
+    for part in m.group(1).split(','):
+        part = part.strip()
+        if not part:
+            continue
+        nm = part.split(':')[0].strip()
+        nm = nm.replace('&', '').replace('mut ', '').strip()
+        out.append(nm)
+    return out
+
+
+def panic_promises(doc):
+    """sentences of a rustdoc text that promise a glam_assert panic (a sentence saying the function does not / never panics is not a promise)"""
+    if not doc:
+        return []
+    out = []
+    for sent in re.split(r'(?<=[.!?])\s+', doc):
+        low = sent.lower()
+        if 'panic' not in low or not re.search(r'glam[_-]assert', low):
+            continue
+        if re.search(r"\b(never|not|won't|cannot|can't|doesn't|does not)\b[^.]*\bpanic", low):
+            continue
+        out.append(sent)
+    return out
